@@ -67,6 +67,32 @@ func (a *Activation) callCommon(c *ssa.CallCommon, st *State, pos token.Pos, pre
 		fn := fv.Clo.Fn.(*ssa.Function)
 		return a.callStatic(fn, args, fv.Clo.Bindings, st, pos, sig)
 	}
+	// 'beforecall <variable>' hooks: assertions about the arguments handed to a function-valued variable
+	if con := a.rootContract(); con != nil {
+		vname := ""
+		switch v := c.Value.(type) {
+		case *ssa.Parameter:
+			vname = v.Name()
+		case *ssa.UnOp:
+			if fvv, ok := v.X.(*ssa.FreeVar); ok {
+				vname = fvv.Name()
+			}
+		}
+		if vname != "" {
+			for _, cl := range con.Clauses {
+				if cl.Kind == "beforecall" && cl.Name == vname {
+					ra := a.rootAct()
+					for ai, av := range args {
+						ra.lets[fmt.Sprintf("callarg_%d", ai)] = av
+					}
+					a.ghostAssign(st, cl)
+					for ai := range args {
+						delete(ra.lets, fmt.Sprintf("callarg_%d", ai))
+					}
+				}
+			}
+		}
+	}
 	// function value of unknown code: a contract may be attached to its named function type
 	if nt, ok := types.Unalias(c.Value.Type()).(*types.Named); ok {
 		key := "functype:" + typeKey(nt)
@@ -96,8 +122,14 @@ func (a *Activation) callStatic(fn *ssa.Function, args []Val, bindings []Val, st
 					if len(res) > 0 {
 						ra.lets["callresult"] = res[0]
 					}
+					for ri, rv := range res {
+						ra.lets[fmt.Sprintf("callresult_%d", ri)] = rv
+					}
 					a.ghostAssign(out, c)
 					delete(ra.lets, "callresult")
+					for ri := range res {
+						delete(ra.lets, fmt.Sprintf("callresult_%d", ri))
+					}
 				}
 			}
 		}
@@ -141,6 +173,9 @@ func (a *Activation) callStatic0(fn *ssa.Function, args []Val, bindings []Val, s
 		}
 		if con == nil && len(cons) > 0 {
 			t.errorf("%s: callee %s has only case contracts and none matches case %q", fullName(a.fn), name, cs)
+		}
+		if con != nil && con.Trusted && con.hasClause("recorded") {
+			return a.recordedStatic(con, target, args, sig, st, pos)
 		}
 		if con != nil && !(con.Inline && t.eng.inModule(target) && a.depth < maxInlineDepth) && !a.inlineForced(name) {
 			return a.applyContract(con, target, args, bindings, st, pos, sig)
@@ -517,6 +552,34 @@ func (a *Activation) pureApply(fv Val, args []Val, sig *types.Signature, st *Sta
 	k := kindOfType(RT)
 	res = append(res, Val{K: k, T: RT, S: t.appTerm(fv.S, args, k)})
 	return st, res
+}
+
+// recordedStatic: a foreign function with an assumed contract marked 'recorded': the call is logged like a call into
+// unknown code (so that specifications can name its i-th result) and the contract's ensures are assumed.
+func (a *Activation) recordedStatic(con *FuncContract, fn *ssa.Function, args []Val, sig *types.Signature, st *State, pos token.Pos) (*State, []Val) {
+	t := a.t
+	t.assumed["assumed contract (trusted, not verified): "+con.Full] = true
+	t.contractsUsed[con.Full] = true
+	fv := Val{K: KFunc, S: t.funcID(fn)}
+	pure := con.hasClause("modifies") && !con.hasClause("havoc")
+	pre := st.clone()
+	out, res := a.opaqueCallX(fv, args, sig, st, pos, con.Full, !pure)
+	vars := map[string]Val{}
+	for i, p := range fn.Params {
+		if i < len(args) {
+			vars[p.Name()] = args[i]
+		}
+	}
+	for i, r := range res {
+		vars[fmt.Sprintf("result_%d", i)] = r
+	}
+	env := &ExprEnv{t: t, st: out, old: pre, vars: vars, pkg: con.Pkg, callBase: pre}
+	for _, c := range con.Clauses {
+		if c.Kind == "ensures" {
+			t.assume(out.pc, env.evalBool(c.Expr, c.Src))
+		}
+	}
+	return out, res
 }
 
 // opaqueFuncTypeContract: call of a function value whose named type carries an assumed contract (e.g. context.CancelFunc).
